@@ -58,7 +58,11 @@ class Builder:
             self.features.add("same_name_twice")
         form = rng.random()
         if form < 0.55:
-            return f"{indent}from {module} import {', '.join(names)}"
+            tail = ""
+            if rng.random() < 0.15:
+                self.features.add("trailing_comment")
+                tail = rng.choice(("  # noqa", " # from valera import validate", "  # a; b"))
+            return f"{indent}from {module} import {', '.join(names)}{tail}"
         if form < 0.8:
             self.features.add("parenthesised")
             style = rng.random()
@@ -143,6 +147,13 @@ class Builder:
 
     def same_line(self):
         """Several statements on one physical line, at least one of them a top-level from-import."""
+        line = self._same_line()
+        if self.rng.random() < 0.3 and "#" not in line.split("\n")[-1]:
+            self.features.add("trailing_comment")
+            line += self.rng.choice(("  # trailing comment", " # x; y", "  #"))
+        return line
+
+    def _same_line(self):
         rng = self.rng
         imp = self.from_import()
         r = rng.random()
